@@ -215,6 +215,8 @@ structure Laws (st : Storable K V) (proj : V → P) (ok : K → V → KV → Pro
   clear_proj : ∀ v, proj (st.checkClear v).2 = proj v
   ok_clear : ∀ id v kv, ok id v kv → ok id (st.checkClear v).2 kv
   read_clean : ∀ id kv v, st.readFrom id kv = some v → (st.checkClear v).1 = false
+  clear_idem : ∀ v, (st.checkClear (st.checkClear v).2).1 = false
+  ok_after_write : ∀ id v kv, ok id v kv → ok id v (st.writeTo id v kv)
 
 /-- the entry `Flush` leaves in the cache for a live entry -/
 def cleanElem (st : Storable K V) (e : Elem V) : Elem V :=
@@ -444,9 +446,11 @@ def AllIn (st : Storable K V) (c : Cache K V) (kv : KV) : Prop :=
 /-- **CacheCoherent**: every cached item is live and its observation-relevant projection is what
 `ReadFrom` returns from the committed bucket; the map has one entry per key; `isAllInCache` is
 truthful.  (That every id of the bucket is reachable by read-through is `view = obs`, below.) -/
-structure Coherent (st : Storable K V) (proj : V → P) (c : Cache K V) (kv : KV) : Prop where
+structure Coherent (st : Storable K V) (proj : V → P) (ok : K → V → KV → Prop) (c : Cache K V) (kv : KV) : Prop where
   nodup : NodupKeys c.items
-  agree : ∀ id e, find c.items id = some e → e.isDeleted = false ∧ obs st proj kv id = some (proj e.value)
+  agree : ∀ id e, find c.items id = some e → e.isDeleted = false ∧ e.isDirty = false ∧ obs st proj kv id = some (proj e.value)
+  /-- an entry whose own flag is still set (it was dirty twice over when flushed) may be rewritten as is -/
+  rewrite : ∀ id e, find c.items id = some e → needsWrite st e = true → ok id e.value kv
   allIn : AllIn st c kv
 
 /-- inside a transaction: clean live entries agree with the bucket, entries to be written satisfy
@@ -458,24 +462,24 @@ structure Tracked (st : Storable K V) (proj : V → P) (ok : K → V → KV → 
   dirty : ∀ id e, find c.items id = some e → e.isDeleted = false → needsWrite st e = true → ok id e.value kv
   allIn : AllIn st c kv
 
-theorem coherent_view {st : Storable K V} {proj : V → P} {c : Cache K V} {kv : KV}
-    (h : Coherent st proj c kv) : ∀ id, view st proj c.items kv id = obs st proj kv id := by
+theorem coherent_view {st : Storable K V} {proj : V → P} {ok : K → V → KV → Prop} {c : Cache K V} {kv : KV}
+    (h : Coherent st proj ok c kv) : ∀ id, view st proj c.items kv id = obs st proj kv id := by
   intro id
   unfold view
   cases hf : find c.items id with
   | none => rfl
   | some e =>
-    obtain ⟨h1, h2⟩ := h.agree id e hf
+    obtain ⟨h1, _, h2⟩ := h.agree id e hf
     simp [h1, h2]
 
-theorem coherent_empty (st : Storable K V) (proj : V → P) (kv : KV) : Coherent st proj Cache.empty kv :=
-  ⟨by simp [Cache.empty, NodupKeys, keysOf], by simp [Cache.empty, find], by simp [AllIn, Cache.empty]⟩
+theorem coherent_empty (st : Storable K V) (proj : V → P) (ok : K → V → KV → Prop) (kv : KV) :
+    Coherent st proj ok Cache.empty kv :=
+  ⟨by simp [Cache.empty, NodupKeys, keysOf], by simp [Cache.empty, find], by simp [Cache.empty, find],
+    by simp [AllIn, Cache.empty]⟩
 
 theorem Coherent.tracked {st : Storable K V} {proj : V → P} {ok : K → V → KV → Prop} {c : Cache K V} {kv : KV}
-    (h : Coherent st proj c kv)
-    (hok : ∀ id e, find c.items id = some e → needsWrite st e = true → ok id e.value kv) :
-    Tracked st proj ok c kv :=
-  ⟨h.nodup, fun id e hf _ _ => (h.agree id e hf).2, fun id e hf _ hw => hok id e hf hw, h.allIn⟩
+    (h : Coherent st proj ok c kv) : Tracked st proj ok c kv :=
+  ⟨h.nodup, fun id e hf _ _ => (h.agree id e hf).2.2, fun id e hf _ hw => h.rewrite id e hf hw, h.allIn⟩
 
 theorem tracked_put {st : Storable K V} {proj : V → P} {ok : K → V → KV → Prop} {c : Cache K V} {kv : KV}
     (h : Tracked st proj ok c kv) (id : K) (v : V) (hv : ok id v kv) : Tracked st proj ok (put c id v) kv := by
@@ -613,6 +617,110 @@ theorem get_spec (st : Storable K V) (proj : V → P) (c : Cache K V) (kv : KV) 
 
 /-! ### Flush re-establishes coherence -/
 
+theorem flush_keeps_ok {st : Storable K V} {proj : V → P} {ok : K → V → KV → Prop} (L : Laws st proj ok)
+    (items kept : List (K × Elem V)) (kv : KV) (id : K) (v : V) (hid : id ∉ keysOf items) (h : ok id v kv) :
+    ok id v (items.foldl (flushItem st) (kept, kv)).2 := by
+  induction items generalizing kept kv with
+  | nil => exact h
+  | cons p rest ih =>
+    obtain ⟨id0, e0⟩ := p
+    have hne : id ≠ id0 := fun x => hid (by simp [keysOf, x])
+    have hid' : id ∉ keysOf rest := fun x => hid (by simp only [keysOf, List.map_cons]; exact List.mem_cons_of_mem _ x)
+    simp only [List.foldl_cons]
+    cases hd : e0.isDeleted
+    · cases hdi : e0.isDirty
+      · cases hc : (st.checkClear e0.value).1
+        · rw [flushItem_clean st kept kv id0 e0 hd hdi hc]; exact ih _ _ hid' h
+        · rw [flushItem_vdirty st kept kv id0 e0 hd hdi hc]; exact ih _ _ hid' (L.ok_write_frame id0 id _ v kv hne h)
+      · rw [flushItem_dirty st kept kv id0 e0 hd hdi]; exact ih _ _ hid' (L.ok_write_frame id0 id _ v kv hne h)
+    · rw [flushItem_deleted st kept kv id0 e0 hd]; exact ih _ _ hid' (L.ok_delete_frame id0 id v kv hne h)
+
+/-- after `Flush` every value that was written could be written again -/
+theorem flush_ok {st : Storable K V} {proj : V → P} {ok : K → V → KV → Prop} (L : Laws st proj ok)
+    (items kept : List (K × Elem V)) (kv : KV) (hn : NodupKeys items)
+    (hok : ∀ id e, (id, e) ∈ items → e.isDeleted = false → needsWrite st e = true → ok id e.value kv) :
+    ∀ id e, (id, e) ∈ items → e.isDeleted = false → needsWrite st e = true →
+      ok id (writtenValue st e) (items.foldl (flushItem st) (kept, kv)).2 := by
+  induction items generalizing kept kv with
+  | nil => intro id e hm; cases hm
+  | cons p rest ih =>
+    obtain ⟨id0, e0⟩ := p
+    have hn' := List.nodup_cons.1 hn
+    intro id e hm hde hw
+    simp only [List.foldl_cons]
+    rcases List.mem_cons.1 hm with heq | hm'
+    · have h1 : id0 = id := (Prod.mk.inj heq).1.symm
+      have h2 : e0 = e := (Prod.mk.inj heq).2.symm
+      subst h1 h2
+      have hok0 := hok id0 e0 (List.mem_cons_self) hde hw
+      cases hdi : e0.isDirty
+      · have hc : (st.checkClear e0.value).1 = true := by simpa [needsWrite, hdi] using hw
+        rw [flushItem_vdirty st kept kv id0 e0 hde hdi hc]
+        have : writtenValue st e0 = (st.checkClear e0.value).2 := by simp [writtenValue, hdi]
+        rw [this]
+        exact flush_keeps_ok L rest _ _ id0 _ hn'.1 (L.ok_after_write id0 _ kv (L.ok_clear id0 _ kv hok0))
+      · rw [flushItem_dirty st kept kv id0 e0 hde hdi]
+        have : writtenValue st e0 = e0.value := by simp [writtenValue, hdi]
+        rw [this]
+        exact flush_keeps_ok L rest _ _ id0 _ hn'.1 (L.ok_after_write id0 _ kv hok0)
+    · have hne : id ≠ id0 := by
+        intro h; subst h
+        exact hn'.1 (List.mem_map.2 ⟨(id, e), hm', rfl⟩)
+      have step : ∃ kept1 kv1, flushItem st (kept, kv) (id0, e0) = (kept1, kv1) ∧
+          (∀ id' v', id' ≠ id0 → ok id' v' kv → ok id' v' kv1) := by
+        cases hd : e0.isDeleted
+        · cases hdi : e0.isDirty
+          · cases hc : (st.checkClear e0.value).1
+            · exact ⟨_, _, flushItem_clean st kept kv id0 e0 hd hdi hc, fun _ _ _ h => h⟩
+            · exact ⟨_, _, flushItem_vdirty st kept kv id0 e0 hd hdi hc, fun id' v' h => L.ok_write_frame id0 id' _ v' kv h⟩
+          · exact ⟨_, _, flushItem_dirty st kept kv id0 e0 hd hdi, fun id' v' h => L.ok_write_frame id0 id' _ v' kv h⟩
+        · exact ⟨_, _, flushItem_deleted st kept kv id0 e0 hd, fun id' v' h => L.ok_delete_frame id0 id' v' kv h⟩
+      obtain ⟨kept1, kv1, hstep, hokf⟩ := step
+      rw [hstep]
+      refine ih kept1 kv1 hn'.2 ?_ id e hm' hde hw
+      intro id' e' hm'' h1 h2
+      have hne' : id' ≠ id0 := by
+        intro h; subst h
+        exact hn'.1 (List.mem_map.2 ⟨(id', e'), hm'', rfl⟩)
+      exact hokf id' _ hne' (hok id' e' (List.mem_cons_of_mem _ hm'') h1 h2)
+
+/-- any bucket invariant that single writes (under their precondition) and deletes preserve is
+preserved by `Flush` -/
+theorem flush_preserves {st : Storable K V} {proj : V → P} {ok : K → V → KV → Prop} (L : Laws st proj ok)
+    (I : KV → Prop) (hw : ∀ id v kv, ok id v kv → I kv → I (st.writeTo id v kv))
+    (hdel : ∀ id kv, I kv → I (st.deleteFrom id kv))
+    (items kept : List (K × Elem V)) (kv : KV) (hn : NodupKeys items)
+    (hok : ∀ id e, (id, e) ∈ items → e.isDeleted = false → needsWrite st e = true → ok id e.value kv)
+    (hI : I kv) : I (items.foldl (flushItem st) (kept, kv)).2 := by
+  induction items generalizing kept kv with
+  | nil => exact hI
+  | cons p rest ih =>
+    obtain ⟨id0, e0⟩ := p
+    have hn' := List.nodup_cons.1 hn
+    simp only [List.foldl_cons]
+    have step : ∃ kept1 kv1, flushItem st (kept, kv) (id0, e0) = (kept1, kv1) ∧ I kv1 ∧
+        (∀ id' v', id' ≠ id0 → ok id' v' kv → ok id' v' kv1) := by
+      cases hd : e0.isDeleted
+      · cases hdi : e0.isDirty
+        · cases hc : (st.checkClear e0.value).1
+          · exact ⟨_, _, flushItem_clean st kept kv id0 e0 hd hdi hc, hI, fun _ _ _ h => h⟩
+          · have := hok id0 e0 (List.mem_cons_self) hd (by simp [needsWrite, hc])
+            exact ⟨_, _, flushItem_vdirty st kept kv id0 e0 hd hdi hc, hw _ _ _ (L.ok_clear _ _ _ this) hI,
+              fun id' v' h => L.ok_write_frame id0 id' _ v' kv h⟩
+        · have := hok id0 e0 (List.mem_cons_self) hd (by simp [needsWrite, hdi])
+          exact ⟨_, _, flushItem_dirty st kept kv id0 e0 hd hdi, hw _ _ _ this hI,
+            fun id' v' h => L.ok_write_frame id0 id' _ v' kv h⟩
+      · exact ⟨_, _, flushItem_deleted st kept kv id0 e0 hd, hdel _ _ hI, fun id' v' h => L.ok_delete_frame id0 id' v' kv h⟩
+    obtain ⟨kept1, kv1, hstep, hI1, hokf⟩ := step
+    rw [hstep]
+    refine ih kept1 kv1 hn'.2 ?_ hI1
+    intro id' e' hm' h1 h2
+    have hne' : id' ≠ id0 := by
+      intro h; subst h
+      exact hn'.1 (List.mem_map.2 ⟨(id', e'), hm', rfl⟩)
+    exact hokf id' _ hne' (hok id' e' (List.mem_cons_of_mem _ hm') h1 h2)
+
+
 theorem cleanElem_props (st : Storable K V) (proj : V → P) {ok : K → V → KV → Prop} (L : Laws st proj ok) (e : Elem V) :
     (cleanElem st e).isDeleted = e.isDeleted ∧ proj (cleanElem st e).value = proj e.value := by
   unfold cleanElem
@@ -624,7 +732,7 @@ theorem cleanElem_props (st : Storable K V) (proj : V → P) {ok : K → V → K
 
 theorem flush_spec {st : Storable K V} {proj : V → P} {ok : K → V → KV → Prop} (L : Laws st proj ok)
     {c : Cache K V} {kv : KV} (h : Tracked st proj ok c kv) :
-    Coherent st proj (flush st c kv).1 (flush st c kv).2 ∧
+    Coherent st proj ok (flush st c kv).1 (flush st c kv).2 ∧
     ∀ id, obs st proj (flush st c kv).2 id = view st proj c.items kv id := by
   have hitems : (flush st c kv).1.items = cleanItems st c.items := by
     have := flush_items st c.items [] kv
@@ -649,7 +757,9 @@ theorem flush_spec {st : Storable K V} {proj : V → P} {ok : K → V → KV →
         · simp [h.clean id e hf hd hw, hd, hw]
         · simp [hd, hw]
       · simp [hd]
-  refine ⟨⟨?_, ?_, ?_⟩, hview⟩
+  have hokfin := flush_ok L c.items [] kv h.nodup
+      (fun id e hm hd hw => h.dirty id e (find_of_mem h.nodup hm) hd hw)
+  refine ⟨⟨?_, ?_, ?_, ?_⟩, hview⟩
   · rw [hitems]; exact List.Sublist.nodup (keysOf_cleanItems_sublist st c.items) h.nodup
   · intro id e' hf'
     rw [hitems, find_cleanItems st h.nodup] at hf'
@@ -660,8 +770,33 @@ theorem flush_spec {st : Storable K V} {proj : V → P} {ok : K → V → KV →
       cases hd : e.isDeleted
       · simp [hd] at hf'; subst hf'
         obtain ⟨p1, p2⟩ := cleanElem_props st proj L e
-        refine ⟨by rw [p1, hd], ?_⟩
-        rw [hview id, p2]; simp [view, hf, hd]
+        refine ⟨by rw [p1, hd], ?_, ?_⟩
+        · unfold cleanElem; split
+          · rfl
+          · rename_i hnd; split <;> simpa using hnd
+        · rw [hview id, p2]; simp [view, hf, hd]
+      · simp [hd] at hf'
+  · intro id e' hf' hw'
+    rw [hitems, find_cleanItems st h.nodup] at hf'
+    cases hf : find c.items id with
+    | none => rw [hf] at hf'; cases hf'
+    | some e =>
+      rw [hf] at hf'
+      cases hd : e.isDeleted
+      · simp [hd] at hf'; subst hf'
+        -- still flagged: it was dirty in both ways, and was written as is
+        cases hdi : e.isDirty
+        · exfalso
+          unfold cleanElem needsWrite at hw'
+          cases hc : (st.checkClear e.value).1
+          · simp [hdi, hc] at hw'
+          · simp [hdi, hc, L.clear_idem] at hw'
+        · have hcv : (cleanElem st e).value = e.value := by simp [cleanElem, hdi]
+          have hw : needsWrite st e = true := by simp [needsWrite, hdi]
+          have := hokfin id e (mem_of_find hf) hd hw
+          simp only [writtenValue, hdi, if_true] at this
+          rw [hcv]
+          simpa [flush] using this
       · simp [hd] at hf'
   · intro ha id hr
     rw [hall] at ha
@@ -831,5 +966,177 @@ theorem tracked_mapLive {st : Storable K V} {proj : V → P} {ok : K → V → K
     cases hfe : find c.items id with
     | none => rw [hfe] at this; cases this
     | some e => simp
+
+
+/-! ### a write transaction as a program over the cache -/
+
+/-- what an index does to its item cache inside one transaction -/
+inductive Op (K V : Type) where
+  | put (id : K) (v : V)
+  | del (id : K)
+  | get (id : K)
+  /-- `ForEach` followed by an in-place rewrite of every live value (the quantisers' `Fit`) -/
+  | mutate (f : K → V → V)
+
+def applyOp (st : Storable K V) (kv : KV) (c : Cache K V) : Op K V → Cache K V
+  | .put id v => put c id v
+  | .del id => delete st c kv id
+  | .get id => (get st c kv id).1
+  | .mutate f =>
+    match loadAll st c kv with
+    | some c' => { c' with items := mapLive f c'.items }
+    | none => c
+
+/-- the same program on the overlay map; `g` is the effect of a mutation on the projection -/
+def specOp (proj : V → P) (g : (K → V → V) → K → P → P) (m : K → Option P) : Op K V → K → Option P
+  | .put id v => fun id' => if id' = id then some (proj v) else m id'
+  | .del id => fun id' => if id' = id then none else m id'
+  | .get _ => m
+  | .mutate f => fun id' => (m id').map (g f id')
+
+/-- side conditions of a program w.r.t. the bucket of the transaction -/
+def OpOk (st : Storable K V) (proj : V → P) (ok : K → V → KV → Prop) (g : (K → V → V) → K → P → P) (kv : KV) :
+    Op K V → Prop
+  | .put id v => ok id v kv
+  | .del _ => True
+  | .get _ => True
+  | .mutate f => ∀ id v, (st.checkClear (f id v)).1 = true ∧ ok id (f id v) kv ∧ proj (f id v) = g f id (proj v)
+
+theorem applyOp_spec {st : Storable K V} {proj : V → P} {ok : K → V → KV → Prop} {wf : KV → Prop}
+    (g : (K → V → V) → K → P → P)
+    (L : Laws st proj ok) (E : EnumLaws st wf) {c : Cache K V} {kv : KV} (hwf : wf kv)
+    (h : Tracked st proj ok c kv) (op : Op K V) (hop : OpOk st proj ok g kv op) :
+    Tracked st proj ok (applyOp st kv c op) kv ∧
+    ∀ id, view st proj (applyOp st kv c op).items kv id = specOp proj g (view st proj c.items kv) op id := by
+  cases op with
+  | put id v => exact ⟨tracked_put h id v hop, fun id' => view_put st proj c kv id v id'⟩
+  | del id => exact ⟨tracked_delete h id, fun id' => view_delete st proj c kv id id'⟩
+  | get id => exact ⟨tracked_get L h id, (get_spec st proj c kv id).2⟩
+  | mutate f =>
+    obtain ⟨c', l, hfe, ht, hall, hv, _, _⟩ := forEach_spec L E hwf h
+    have hl : loadAll st c kv = some c' := by
+      unfold forEach at hfe
+      cases hla : loadAll st c kv with
+      | none => rw [hla] at hfe; cases hfe
+      | some c'' => rw [hla] at hfe; simp at hfe; rw [hfe.1]
+    simp only [applyOp, hl]
+    refine ⟨tracked_mapLive ht f (fun id e _ _ => Or.inl (hop id e.value).1) (fun id e _ _ => (hop id e.value).2.1), ?_⟩
+    intro id
+    simp only [specOp, ← hv id]
+    unfold view
+    simp only [find_mapLive]
+    cases hf : find c'.items id with
+    | some e =>
+      cases hd : e.isDeleted
+      · simp [hd, (hop id e.value).2.2]
+      · simp [hd]
+    | none =>
+      have : obs st proj kv id = none := by
+        cases ho : st.readFrom id kv with
+        | none => simp [obs, ho]
+        | some v =>
+          have := ht.allIn hall id (by simp [ho])
+          rw [hf] at this; cases this
+      simp [this]
+
+theorem applyOps_spec {st : Storable K V} {proj : V → P} {ok : K → V → KV → Prop} {wf : KV → Prop}
+    (g : (K → V → V) → K → P → P)
+    (L : Laws st proj ok) (E : EnumLaws st wf) {kv : KV} (hwf : wf kv) (ops : List (Op K V)) {c : Cache K V}
+    (h : Tracked st proj ok c kv) (hops : ∀ op, op ∈ ops → OpOk st proj ok g kv op) :
+    Tracked st proj ok (ops.foldl (applyOp st kv) c) kv ∧
+    ∀ id, view st proj (ops.foldl (applyOp st kv) c).items kv id =
+      ops.foldl (specOp proj g) (view st proj c.items kv) id := by
+  induction ops generalizing c with
+  | nil => exact ⟨h, fun _ => rfl⟩
+  | cons op rest ih =>
+    obtain ⟨h1, h2⟩ := applyOp_spec g L E hwf h op (hops op List.mem_cons_self)
+    obtain ⟨h3, h4⟩ := ih h1 (fun o ho => hops o (List.mem_cons_of_mem _ ho))
+    refine ⟨h3, fun id => ?_⟩
+    simp only [List.foldl_cons]
+    rw [h4 id]
+    have : view st proj (applyOp st kv c op).items kv = specOp proj g (view st proj c.items kv) op := funext h2
+    rw [this]
+
+/-- one write transaction: the program, then `Flush` -/
+def runBatch (st : Storable K V) (c : Cache K V) (kv : KV) (ops : List (Op K V)) : Cache K V × KV :=
+  flush st (ops.foldl (applyOp st kv) c) kv
+
+theorem runBatch_spec {st : Storable K V} {proj : V → P} {ok : K → V → KV → Prop} {wf : KV → Prop}
+    (g : (K → V → V) → K → P → P)
+    (L : Laws st proj ok) (E : EnumLaws st wf) {c : Cache K V} {kv : KV} (hwf : wf kv)
+    (h : Coherent st proj ok c kv) (ops : List (Op K V)) (hops : ∀ op, op ∈ ops → OpOk st proj ok g kv op) :
+    Coherent st proj ok (runBatch st c kv ops).1 (runBatch st c kv ops).2 ∧
+    ∀ id, obs st proj (runBatch st c kv ops).2 id = ops.foldl (specOp proj g) (obs st proj kv) id := by
+  obtain ⟨h1, h2⟩ := applyOps_spec g L E hwf ops h.tracked hops
+  obtain ⟨h3, h4⟩ := flush_spec L h1
+  refine ⟨h3, fun id => ?_⟩
+  unfold runBatch
+  rw [h4 id, h2 id]
+  have : view st proj c.items kv = obs st proj kv := funext (coherent_view h)
+  rw [this]
+
+
+/-- the bucket invariant `wf` needed for enumeration survives single writes and deletes -/
+structure WfLaws (st : Storable K V) (ok : K → V → KV → Prop) (wf : KV → Prop) : Prop where
+  write : ∀ id v kv, ok id v kv → wf kv → wf (st.writeTo id v kv)
+  delete : ∀ id kv, wf kv → wf (st.deleteFrom id kv)
+
+theorem runBatch_wf {st : Storable K V} {proj : V → P} {ok : K → V → KV → Prop} {wf : KV → Prop}
+    (g : (K → V → V) → K → P → P)
+    (L : Laws st proj ok) (E : EnumLaws st wf) (W : WfLaws st ok wf) {c : Cache K V} {kv : KV} (hwf : wf kv)
+    (h : Coherent st proj ok c kv) (ops : List (Op K V)) (hops : ∀ op, op ∈ ops → OpOk st proj ok g kv op) :
+    wf (runBatch st c kv ops).2 := by
+  obtain ⟨h1, _⟩ := applyOps_spec g L E hwf ops h.tracked hops
+  have := flush_preserves L wf W.write W.delete (ops.foldl (applyOp st kv) c).items [] kv h1.nodup
+    (fun id e hm hd hw => h1.dirty id e (find_of_mem h1.nodup hm) hd hw) hwf
+  simpa [runBatch, flush] using this
+
+/-- a history of write transactions; before each one the manager decides the fate of the shared cache -/
+def runHistory (st : Storable K V) : Cache K V × KV → List (Fate × List (Op K V)) → Cache K V × KV
+  | s, [] => s
+  | (c, kv), (f, ops) :: rest => runHistory st (runBatch st (afterTx f c) kv ops) rest
+
+/-- the side conditions of every transaction, w.r.t. the bucket it actually runs on -/
+def OkRun (st : Storable K V) (proj : V → P) (ok : K → V → KV → Prop) (g : (K → V → V) → K → P → P) :
+    Cache K V × KV → List (Fate × List (Op K V)) → Prop
+  | _, [] => True
+  | (c, kv), (f, ops) :: rest =>
+    (∀ op, op ∈ ops → OpOk st proj ok g kv op) ∧ OkRun st proj ok g (runBatch st (afterTx f c) kv ops) rest
+
+/-- the same history on a plain map: no cache, no fates -/
+def specHistory (proj : V → P) (g : (K → V → V) → K → P → P) (m : K → Option P) :
+    List (Fate × List (Op K V)) → K → Option P
+  | [] => m
+  | (_, ops) :: rest => specHistory proj g (ops.foldl (specOp proj g) m) rest
+
+theorem coherent_afterTx {st : Storable K V} {proj : V → P} {ok : K → V → KV → Prop} {c : Cache K V} {kv : KV}
+    (h : Coherent st proj ok c kv) (f : Fate) : Coherent st proj ok (afterTx f c) kv := by
+  cases f
+  · exact h
+  · exact coherent_empty st proj ok kv
+
+theorem runHistory_spec {st : Storable K V} {proj : V → P} {ok : K → V → KV → Prop} {wf : KV → Prop}
+    (g : (K → V → V) → K → P → P)
+    (L : Laws st proj ok) (E : EnumLaws st wf) (W : WfLaws st ok wf)
+    (hist : List (Fate × List (Op K V))) {c : Cache K V} {kv : KV} (hwf : wf kv)
+    (h : Coherent st proj ok c kv) (hrun : OkRun st proj ok g (c, kv) hist) :
+    Coherent st proj ok (runHistory st (c, kv) hist).1 (runHistory st (c, kv) hist).2 ∧
+    wf (runHistory st (c, kv) hist).2 ∧
+    ∀ id, obs st proj (runHistory st (c, kv) hist).2 id = specHistory proj g (obs st proj kv) hist id := by
+  induction hist generalizing c kv with
+  | nil => exact ⟨h, hwf, fun _ => rfl⟩
+  | cons b rest ih =>
+    obtain ⟨f, ops⟩ := b
+    obtain ⟨hops, hrest⟩ := hrun
+    have hc := coherent_afterTx h f
+    obtain ⟨h1, h2⟩ := runBatch_spec g L E hwf hc ops hops
+    have hwf' := runBatch_wf g L E W hwf hc ops hops
+    obtain ⟨h3, h4, h5⟩ := ih (c := (runBatch st (afterTx f c) kv ops).1) (kv := (runBatch st (afterTx f c) kv ops).2)
+      hwf' h1 hrest
+    refine ⟨h3, h4, fun id => ?_⟩
+    simp only [runHistory, specHistory]
+    rw [h5 id]
+    have : obs st proj (runBatch st (afterTx f c) kv ops).2 = ops.foldl (specOp proj g) (obs st proj kv) := funext h2
+    rw [this]
 
 end Sema.C08
